@@ -99,7 +99,7 @@ func caseC06(c *Ctx) {
 	if c.Chance(1, 10) {
 		op.Alias = true
 	}
-	fo := forestOpts{maxRoots: 4, maxExtra: 6, alpha: []int{alphaPlain, alphaFS}[c.Draw(2)], distinctRoots: true, maxDepth: 4, maxFan: 3}
+	fo := forestOpts{maxRoots: 4, maxExtra: 6, alpha: []int{alphaPlain, alphaFS}[c.Draw(2)], distinctRoots: true, maxDepth: 4, maxFan: 3, shapes: true}
 	if op.FromRoot {
 		fo.maxRoots = 1
 	} else if massive && c.Chance(1, 4) {
@@ -406,7 +406,7 @@ func caseC08(c *Ctx) {
 	if c.Chance(1, 10) {
 		op.Alias = true
 	}
-	fo := forestOpts{maxRoots: 3, maxExtra: 6, alpha: []int{alphaPlain, alphaFS}[c.Draw(2)], distinctRoots: true, maxDepth: 4, maxFan: 3}
+	fo := forestOpts{maxRoots: 3, maxExtra: 6, alpha: []int{alphaPlain, alphaFS}[c.Draw(2)], distinctRoots: true, maxDepth: 4, maxFan: 3, shapes: true}
 	if op.FromRoot {
 		fo.maxRoots = 1
 	}
